@@ -3,6 +3,7 @@ package sim
 import (
 	"errors"
 	"fmt"
+	"github.com/itchio/wharf/pwr/bowl"
 	"io"
 	"os"
 	"sync"
@@ -453,4 +454,37 @@ func (r *SliceReader) Seek(off int64, whence int) (int64, error) {
 	}
 	r.off = int(n)
 	return n, nil
+}
+
+// FailCloseBowl wraps a bowl: the Close of the n-th entry writer it hands out (1-based) fails with
+// ErrInjected after closing the real writer (a disk that reports an error when the file is closed,
+// or a checking writer that refuses the last block).
+type FailCloseBowl struct {
+	bowl.Bowl
+	N      int
+	opened int
+	Fired  bool
+}
+
+func (b *FailCloseBowl) GetWriter(i int64) (bowl.EntryWriter, error) {
+	w, err := b.Bowl.GetWriter(i)
+	if err != nil {
+		return nil, err
+	}
+	b.opened++
+	if b.opened == b.N {
+		return &failCloseWriter{EntryWriter: w, b: b}, nil
+	}
+	return w, nil
+}
+
+type failCloseWriter struct {
+	bowl.EntryWriter
+	b *FailCloseBowl
+}
+
+func (w *failCloseWriter) Close() error {
+	w.EntryWriter.Close()
+	w.b.Fired = true
+	return ErrInjected
 }
